@@ -73,6 +73,12 @@ pub fn run(id: &str, seed: u64, count: usize) {
     for (a, b) in fixed.iter() {
         emit(a, b, "fixed");
     }
+    // falsy (but not null) data must stay what it is through every wrapper
+    for d in ["0", "0.0", "-0.0", "false", "\"\"", "[]", "{}", "null", "[0]", "\" \""] {
+        for r in [r#"{"var":""}"#, r#"{"===":[{"var":""},null]}"#, r#"{"cat":["<",{"var":""},">"]}"#, r#"{"!!":[{"var":""}]}"#, r#"{"merge":[{"var":""},1]}"#, r#"{"+":[{"var":""},1]}"#] {
+            emit(r, d, "falsy-data");
+        }
+    }
     // deep documents around the text-boundary recursion limit (valid side)
     for op in ["!", "if", "+", "var", "cat", "and", "merge", "log", "map", "all"] {
         for (d, br) in [(10, true), (60, true), (63, true), (100, false), (126, false)] {
